@@ -10,12 +10,13 @@ Local Open Scope list_scope.
 (* Dispatch on the dynamic type. For every conflict-free list of impl blocks (any number of interfaces
    and types, any sharing of method names across types), after registration a call  rc.m(arg)  whose
    receiver (variable, interface copy, parameter, pointer target) holds the interface value (i, t, p)
-   runs exactly the method m of the block find_impl_for_struct returns for (t, i), with self := p. *)
+   runs exactly the method m of the block find_impl_for_struct returns for (t, i), with self := p, under
+   that block's impl context (mk_entry d m = the method stamped with (i_iface d, i_type d)). *)
 Theorem dispatch_on_dynamic_type : forall ds r st rc l i t p d m arg,
   wf_impls ds -> register_all empty_registry ds = inl r -> s_funcs st = r_funcs r ->
   resolve (s_vars st) rc = Some l -> read (s_vars st) l = Some (VIface i t p) ->
   find_impl ds t i = Some d -> In m (i_methods d) ->
-  call st rc (m_name m) arg = invoke st l (VIface i t p) p (enter_of i t p) m arg.
+  call st rc (m_name m) arg = invoke st l (VIface i t p) t p (mk_entry d m) arg.
 Proof. exact dispatch_on_dynamic_type_l. Qed.
 Print Assumptions dispatch_on_dynamic_type.
 
@@ -24,16 +25,16 @@ Theorem dispatch_concrete_receiver : forall ds r st rc l t p d m arg,
   wf_impls ds -> register_all empty_registry ds = inl r -> s_funcs st = r_funcs r ->
   resolve (s_vars st) rc = Some l -> read (s_vars st) l = Some (VConc t p) ->
   In d ds -> i_type d = t -> In m (i_methods d) ->
-  call st rc (m_name m) arg = invoke st l (VConc t p) p None m arg.
+  call st rc (m_name m) arg = invoke st l (VConc t p) t p (mk_entry d m) arg.
 Proof. exact dispatch_concrete_receiver_l. Qed.
 Print Assumptions dispatch_concrete_receiver.
 
 (* The table lookup behind the two theorems: T::m maps to the method m of the unique block giving T a
    method of that name, and to nothing that was not registered for T. *)
 Theorem dispatch_table_exact : forall ds r, wf_impls ds -> register_all empty_registry ds = inl r ->
-  (forall d m, In d ds -> In m (i_methods d) -> alookup (method_key (i_type d) (m_name m)) (r_funcs r) = Some m) /\
-  (forall t n m, alookup (method_key t n) (r_funcs r) = Some m ->
-     exists d, In d ds /\ i_type d = t /\ In m (i_methods d) /\ m_name m = n).
+  (forall d m, In d ds -> In m (i_methods d) -> alookup (method_key (i_type d) (m_name m)) (r_funcs r) = Some (mk_entry d m)) /\
+  (forall t n fe, alookup (method_key t n) (r_funcs r) = Some fe ->
+     exists d m, In d ds /\ i_type d = t /\ In m (i_methods d) /\ m_name m = n /\ fe = mk_entry d m).
 Proof. exact dispatch_table_exact_l. Qed.
 Print Assumptions dispatch_table_exact.
 
@@ -74,14 +75,14 @@ Theorem rebinding_switches_impl : forall ds r st st' x i src sv t2 p d m arg,
   alookup src (s_vars st) = Some sv -> src_view sv = Some (t2, p) ->
   bind st x i src = Ok st' ->
   find_impl ds t2 i = Some d -> In m (i_methods d) ->
-  call st' (RVar x) (m_name m) arg = invoke st' (LVar x) (VIface i t2 p) p (enter_of i t2 p) m arg.
+  call st' (RVar x) (m_name m) arg = invoke st' (LVar x) (VIface i t2 p) t2 p (mk_entry d m) arg.
 Proof. exact rebinding_switches_impl_l. Qed.
 Print Assumptions rebinding_switches_impl.
 
 (* self denotes the receiver: for every receiver form, what becomes self is the payload the receiver's
    cell holds at the moment of the call, and its dynamic type is the one used for the lookup. *)
-Theorem self_reads_current_state : forall vs rc l v t self enter,
-  receiver vs rc = Some (l, v, t, self, enter) ->
+Theorem self_reads_current_state : forall vs rc l v t self,
+  receiver vs rc = Some (l, v, t, self) ->
   read vs l = Some v /\ payload_of v = Some self /\ dyn_type v = Some t /\
   match rc with
   | RVar x => l = LVar x
@@ -95,7 +96,7 @@ Print Assumptions self_reads_current_state.
    the variable and through any pointer to it, and likewise for an array element. *)
 Theorem self_sees_latest_write : forall hs st x f z st1 t fs,
   alookup x (s_vars st) = Some (VConc t (PStruct fs)) -> step hs st (OSet x f z) = Ok st1 ->
-  receiver (s_vars st1) (RVar x) = Some (LVar x, VConc t (PStruct (aset f z fs)), t, PStruct (aset f z fs), None) /\
+  receiver (s_vars st1) (RVar x) = Some (LVar x, VConc t (PStruct (aset f z fs)), t, PStruct (aset f z fs)) /\
   (forall q, alookup q (s_vars st1) = Some (VPtr x) -> receiver (s_vars st1) (RPtr q) = receiver (s_vars st1) (RVar x)) /\
   (forall fr, f_self fr = PStruct (aset f z fs) -> eval fr (EField f) = inl z).
 Proof. exact self_sees_latest_write_l. Qed.
@@ -104,7 +105,7 @@ Print Assumptions self_sees_latest_write.
 Theorem self_sees_latest_element_write : forall hs st a k f z st1 t es fs,
   alookup a (s_vars st) = Some (VArr t es) -> nth_error es k = Some (PStruct fs) ->
   step hs st (OSetElem a k f z) = Ok st1 ->
-  receiver (s_vars st1) (RElem a k) = Some (LElem a k, VConc t (PStruct (aset f z fs)), t, PStruct (aset f z fs), None).
+  receiver (s_vars st1) (RElem a k) = Some (LElem a k, VConc t (PStruct (aset f z fs)), t, PStruct (aset f z fs)).
 Proof. exact self_sees_latest_elem_write_l. Qed.
 Print Assumptions self_sees_latest_element_write.
 
@@ -112,10 +113,10 @@ Print Assumptions self_sees_latest_element_write.
    receiver's cell then holds the final self - and no disjoint cell (other variables, other array
    elements, the source an interface value was copied from) changes. *)
 Theorem self_writes_visible_after_call : forall st rc m arg st' z, call st rc m arg = Ok (st', z) ->
-  exists l v t self enter meth fr',
-    receiver (s_vars st) rc = Some (l, v, t, self, enter) /\
-    alookup (method_key t m) (s_funcs st) = Some meth /\
-    exec_body (frame0 st self enter arg) (m_body meth) = inl fr' /\
+  exists l v t self fe fr',
+    receiver (s_vars st) rc = Some (l, v, t, self) /\
+    alookup (method_key t m) (s_funcs st) = Some fe /\
+    exec_body (nested_self (s_funcs st) t) (frame0 fe self arg (s_statics st) (s_out st)) (m_body (fe_meth fe)) = inl fr' /\
     read (s_vars st') l = Some (with_payload v (f_self fr')) /\
     (forall l', disjoint l l' -> read (s_vars st') l' = read (s_vars st) l').
 Proof. exact self_writes_visible_l. Qed.
@@ -128,14 +129,49 @@ Theorem impl_static_key_injective : forall i t n i' t' n',
 Proof. exact static_key_inj. Qed.
 Print Assumptions impl_static_key_injective.
 
-(* ... hence statics are separate between pairs: a call whose receiver carries the pair (i, t) leaves
-   every static of every other pair (i', t') unchanged, whatever the body does. *)
-Theorem impl_statics_separate : forall st rc m arg st' z l v self i t i' t' n',
-  call st rc m arg = Ok (st', z) -> receiver (s_vars st) rc = Some (l, v, t, self, Some (i, t)) ->
-  no_colon i = true -> no_colon i' = true -> no_colon t = true -> no_colon t' = true -> (i', t') <> (i, t) ->
+(* ... hence statics are separate: a call on a receiver of dynamic type t leaves the statics of every pair
+   with another type unchanged, whatever the body does and whatever it calls ... *)
+Theorem impl_statics_separate : forall ds r st rc m arg st' z l v self t i' t' n',
+  wf_impls ds -> register_all empty_registry ds = inl r -> s_funcs st = r_funcs r ->
+  call st rc m arg = Ok (st', z) -> receiver (s_vars st) rc = Some (l, v, t, self) ->
+  no_colon i' = true -> no_colon t = true -> no_colon t' = true -> no_colon n' = true -> t' <> t ->
   alookup (static_key i' t' n') (s_statics st') = alookup (static_key i' t' n') (s_statics st).
 Proof. exact impl_statics_separate_l. Qed.
 Print Assumptions impl_statics_separate.
+
+(* ... and a method whose body makes no nested call touches only the statics of the pair that declares it. *)
+Theorem impl_statics_separate_between_pairs : forall st rc m arg st' z l v self t fe i' t' n',
+  call st rc m arg = Ok (st', z) -> receiver (s_vars st) rc = Some (l, v, t, self) ->
+  alookup (method_key t m) (s_funcs st) = Some fe -> has_calls (m_body (fe_meth fe)) = false ->
+  no_colon (fe_iface fe) = true -> no_colon i' = true -> no_colon (fe_type fe) = true -> no_colon t' = true ->
+  (i', t') <> (fe_iface fe, fe_type fe) ->
+  alookup (static_key i' t' n') (s_statics st') = alookup (static_key i' t' n') (s_statics st).
+Proof. exact impl_statics_separate_leaf_l. Qed.
+Print Assumptions impl_statics_separate_between_pairs.
+
+(* Statics are shared by ALL calls of the pair (DESIGN.md section 7 #34, fixed by ffeef7f): every method starts
+   under the context of the block that declares it - struct value, pointer, array element, parameter,
+   interface value, typedef'd primitive alike - so a static name reads that pair's cell. *)
+Theorem statics_reachable_through_every_receiver : forall fe self arg ss out n,
+  eval (frame0 fe self arg ss out) (EStatic n) =
+  match alookup (static_key (fe_iface fe) (fe_type fe) n) ss with Some v => inl v | None => inr (EUndefVar n) end.
+Proof. exact method_sees_own_statics_l. Qed.
+Print Assumptions statics_reachable_through_every_receiver.
+
+(* The impl context the caller had is in force again after every call (fixed by 3be9fd7), at top level
+   and after a nested  self.m(..)  inside a body. *)
+Theorem impl_context_restored_after_call :
+  (forall st rc m arg st' z, call st rc m arg = Ok (st', z) -> s_ctx st' = s_ctx st) /\
+  (forall funcs t m z fr fr1 r, nested_self funcs t m z fr = inl (fr1, r) -> f_ctx fr1 = f_ctx fr).
+Proof. exact impl_context_restored_l. Qed.
+Print Assumptions impl_context_restored_after_call.
+
+(* `return self;` of a primitive self returns the receiver's value (fixed by 5e201e9). *)
+Theorem return_self_returns_receiver : forall cb fe v arg ss out,
+  m_body (fe_meth fe) = [] -> m_ret (fe_meth fe) = ESelf ->
+  exists fr', run_method cb fe (PPrim v) arg ss out = inl (fr', v).
+Proof. exact return_self_returns_receiver_l. Qed.
+Print Assumptions return_self_returns_receiver.
 
 (* Statics keep a value for the whole run: after ANY history of operations every static declared in
    any registered impl block is still present ... *)
@@ -194,44 +230,20 @@ Print Assumptions bind_accepts_only_implementors.
    Laws the property demands that the faithful model - i.e. the pinned code - does NOT satisfy.
    Each witness is replayed on `main` on every run (known_findings/C12.json). *)
 
-(* DESIGN.md section 7 #34: impl statics are shared by ALL calls of the pair - refuted: the same method on
-   the same object fails with "Undefined variable" when the receiver is the struct variable itself
-   (no impl context is entered for a receiver whose Variable::type is not TYPE_INTERFACE). *)
-Theorem statics_reachable_through_struct_receiver_refuted :
-  exists p out n, wf_impls (p_impls p) /\ run_program p = (out, Some (EUndefVar n)) /\
-    (exists d, In d (p_impls p) /\ In n (map fst (i_statics d))).
-Proof. exact statics_reachable_through_struct_receiver_refuted_l. Qed.
-Print Assumptions statics_reachable_through_struct_receiver_refuted.
-
-(* ... and also when the interface variable holds a typedef'd primitive. *)
-Theorem statics_reachable_for_primitive_impl_refuted :
-  exists p out n, wf_impls (p_impls p) /\ run_program p = (out, Some (EUndefVar n)) /\
-    (exists d, In d (p_impls p) /\ In n (map fst (i_statics d))).
-Proof. exact statics_reachable_for_primitive_impl_refuted_l. Qed.
-Print Assumptions statics_reachable_for_primitive_impl_refuted.
-
-(* A method that the variable's interface does not declare is not rejected: it is found through T::m,
-   runs under the context of the variable's pair and reads/writes THAT pair's statics (returns 12, the
-   counter of (A,S), not 502, the counter of its own pair (B,S)). *)
+(* A method that the variable's interface does not declare is not rejected: it is found through T::m and
+   runs (since ffeef7f under its own block's context: 502, 503 are the counter of (B,S)). *)
 Theorem method_outside_interface_rejected_refuted :
   exists p, wf_impls (p_impls p) /\
-    run_program p = ([("", [11%Z]); ("", [501%Z]); ("", [12%Z]); ("", [502%Z])], None) /\
+    run_program p = ([("", [11%Z]); ("", [501%Z]); ("", [502%Z]); ("", [503%Z])], None) /\
     In (OCall (RVar "a") "other" 0%Z) (p_ops p) /\ alookup "A" (p_ifaces p) = Some ["get"].
 Proof. exact method_outside_interface_rejected_refuted_l. Qed.
 Print Assumptions method_outside_interface_rejected_refuted.
 
-(* The impl context is a single slot: a call through an interface value made while another context is
-   active (from inside a method that was itself entered through an interface value) clears it instead of
-   restoring it, so the enclosing method loses its statics. *)
-Theorem impl_context_restored_after_nested_call_refuted :
-  exists st rc m arg st' z c, s_ctx st = Some c /\ call st rc m arg = Ok (st', z) /\ s_ctx st' = None.
-Proof. exact impl_context_restored_after_nested_call_refuted_l. Qed.
-Print Assumptions impl_context_restored_after_nested_call_refuted.
-
-(* `return self;` in an impl for a typedef'd primitive returns 0, not the receiver's value. *)
-Theorem return_self_of_primitive_refuted :
-  exists p, run_program p = ([("", [0%Z])], None) /\ p_vars p = [("x", VConc "P" (PPrim 7))] /\
-    p_ops p = [OBind "c" "C" "x"; OCall (RVar "c") "me" 0%Z] /\
-    (exists d m, p_impls p = [d] /\ i_methods d = [m] /\ m_ret m = ESelf /\ m_body m = []).
-Proof. exact return_self_of_primitive_refuted_l. Qed.
-Print Assumptions return_self_of_primitive_refuted.
+(* Member writes made by a method are visible in the receiver - refuted when the receiver is `self` inside
+   another method: bump adds d to self.v and returns 7, yet the caller's self.v is still 2 afterwards. *)
+Theorem nested_self_call_writes_visible_refuted :
+  exists p out, wf_impls (p_impls p) /\ run_program p = (out, None) /\
+    In ("C.S.outer>bump", [7%Z]) out /\ In ("C.S.outer", [2%Z]) out /\
+    (exists d, p_impls p = [d] /\ In m_bump (i_methods d) /\ In m_outer (i_methods d)).
+Proof. exact nested_self_call_writes_visible_refuted_l. Qed.
+Print Assumptions nested_self_call_writes_visible_refuted.
